@@ -1802,14 +1802,38 @@ class Module(ABC):
         if name in channel_names:
             channel_cols = list(channel.channel_params.keys())
             channel_cols += list(channel.channel_states.keys())
-            self.base.nodes.loc[self._nodes_in_view, channel_cols] = float("nan")
+            other_channels = [c for c in self.base.channels if c._name != name]
+
+            # Parameters and states (e.g. `vt`, `eK`) can be shared with other channels.
+            # Only clear them in compartments in which no other channel uses them.
+            for col in channel_cols:
+                users = [
+                    c._name
+                    for c in other_channels
+                    if col in c.channel_params or col in c.channel_states
+                ]
+                rows = self._nodes_in_view
+                if len(users) > 0:
+                    still_used = self.base.nodes.loc[rows, users].any(axis=1).to_numpy()
+                    rows = rows[~still_used]
+                self.base.nodes.loc[rows, col] = float("nan")
             self.base.nodes.loc[self._nodes_in_view, name] = False
 
             # only delete cols if no other comps in the module have the same channel
             if np.all(~self.base.nodes[name]):
                 self.base.channels.pop(all_channel_names.index(name))
-                self.base.membrane_current_names.remove(channel.current_name)
-                self.base.nodes.drop(columns=channel_cols + [name], inplace=True)
+                # The current (e.g. `i_K`) and columns can be shared with other channels.
+                if channel.current_name not in [c.current_name for c in other_channels]:
+                    self.base.membrane_current_names.remove(channel.current_name)
+                unshared_cols = [
+                    col
+                    for col in channel_cols
+                    if not any(
+                        col in c.channel_params or col in c.channel_states
+                        for c in other_channels
+                    )
+                ]
+                self.base.nodes.drop(columns=unshared_cols + [name], inplace=True)
         else:
             raise ValueError(f"Channel {name} not found in the module.")
 
